@@ -10,6 +10,12 @@ R-RO      read-only operations change nothing (typed write analysis).
 R-COVER   swap exchanges every owning field (shared with C06).
 R-KEYVAL  object members alternate key slot / value slot: a key lookup
           compares key slots only.
+R-UNLINK  CollectionData::removeOne: on every path to the release of the
+          slot, head_ has been re-seated unless the slot is known to have a
+          predecessor, tail_ has been re-seated unless it is known to have a
+          successor, and a known predecessor has been re-linked
+          (setNext(next)): nothing in the list still designates the slot
+          that goes back to the free list.
 """
 from lib import prog as P
 from rules import cbs, purity
@@ -109,6 +115,138 @@ def run(ctx, prog):
                 "every slot is compared with the key, value slots included: a string value equal to a key is taken for that key"
         ctx.ob(rule, "findKey compares key slots only", ok, fn.where, why)
     ctx.floor(rule, "ObjectData::findKey instantiations", nf, 3)
+    unlink(ctx, prog)
     ctx.doc("R-STABLE", "no mutation path reaches a function that moves/frees slot blocks")
     ctx.doc("R-RO", "read-only entry points reach no write into document memory")
     ctx.doc("R-KEYVAL", "key lookup alternates key/value slots")
+
+
+def unlink(ctx, prog, rule="R-UNLINK"):
+    n = 0
+    for fn in sorted(prog.q("CollectionData::removeOne"), key=lambda f: f.key):
+        if fn.cfg is None:
+            continue
+        n += 1
+        prev = nxt = None
+        for i in fn.walk():
+            st = fn.s(i)
+            if st["k"] == "DeclStmt":
+                for dd in st["decls"]:
+                    if "init" not in dd:
+                        continue
+                    for j in fn.walk(dd["init"]):
+                        sj = fn.s(j)
+                        if sj["k"] in P.CALL_KINDS:
+                            nm = sj.get("callee", {}).get("q", "").split("::")[-1]
+                            if nm == "getPreviousSlot":
+                                prev = dd["d"]
+                            elif nm == "next" and nxt is None:
+                                nxt = dd["d"]
+        frees = [i for i, st in fn.calls() if st["callee"]["q"].split("::")[-1] in ("freeVariant", "releaseSlot", "freeSlot")]
+        if prev is None or nxt is None or not frees:
+            ctx.ob(rule, "removeOne: anchors", None, fn.where, "prev = getPreviousSlot(..), next = ..->next() or the release call not found")
+            continue
+
+        def refs(i, d):
+            return any(fn.s(x)["k"] == "DeclRefExpr" and fn.s(x)["ref"]["d"] == d for x in fn.walk(i))
+
+        def classify(cond):
+            """('prev', True) when cond true means prev is non-null; ('next', True) when it means next == NULL_SLOT."""
+            c = fn.s(fn.strip(cond, casts=True))
+            neg = False
+            while c["k"] == "UnaryOperator" and c["op"] == "!":
+                neg = not neg
+                c = fn.s(fn.strip(c["c"][0], casts=True))
+            if c["k"] in P.CALL_KINDS and c.get("callee", {}).get("q", "").endswith("operator bool") and refs(fn.strip(cond, casts=True), prev):
+                return ("prev", not neg)
+            if c["k"] == "DeclRefExpr" and c["ref"]["d"] == prev:
+                return ("prev", not neg)
+            if c["k"] == "BinaryOperator" and c["op"] in ("==", "!="):
+                a, b = c["c"]
+                sa, sb = fn.s(fn.strip(a, casts=True)), fn.s(fn.strip(b, casts=True))
+                names = {sa.get("ref", {}).get("n"), sb.get("ref", {}).get("n")}
+                ds = {sa.get("ref", {}).get("d"), sb.get("ref", {}).get("d")}
+                if nxt in ds and "NULL_SLOT" in names:
+                    return ("next", (c["op"] == "==") != neg)
+            if refs(cond, prev) or refs(cond, nxt) or any(fn.s(x)["k"] == "MemberExpr" and fn.s(x).get("m") in ("head_", "tail_") for x in fn.walk(cond)):
+                return ("?", None)
+            return None
+
+        blocks = fn.blocks()
+        free_blocks = {fn.block_of(i)[0]: i for i in frees if fn.block_of(i)}
+        results = []      # (wrote_head, wrote_tail, relinked, prevk, nextk, unknown_cond)
+        stack = [(fn.cfg["entry"], False, False, False, None, None, False, ())]
+        seen = set()
+        while stack:
+            b, wh, wt, rl, pk, nk, unk, trail = stack.pop()
+            if (b, wh, wt, rl, pk, nk, unk) in seen or len(seen) > 5000:
+                continue
+            seen.add((b, wh, wt, rl, pk, nk, unk))
+            blk = blocks[b]
+            done = False
+            for e in blk["el"]:
+                if not isinstance(e, int) or e < 0:
+                    continue
+                st = fn.s(e)
+                if st["k"] == "BinaryOperator" and st["op"] == "=":
+                    l = fn.s(fn.strip(st["c"][0], casts=True))
+                    if l["k"] == "MemberExpr" and l.get("m") == "head_" and refs(st["c"][1], nxt):
+                        wh = True
+                    if l["k"] == "MemberExpr" and l.get("m") == "tail_" and refs(st["c"][1], prev):
+                        wt = True
+                if st["k"] in P.CALL_KINDS and st.get("callee", {}).get("q", "").endswith("setNext") and "obj" in st \
+                        and refs(st["obj"], prev) and st.get("args") and refs(st["args"][0], nxt):
+                    rl = True
+                if e in frees:
+                    results.append((wh, wt, rl, pk, nk, unk, trail, e))
+                    done = True
+                    break
+            if done:
+                continue
+            succ = [x for x in blk["succ"]]
+            if "cond" in blk and len(succ) == 2 and blk.get("termk") != "SwitchStmt":
+                cl = classify(blk["cond"])
+                for pol, s_ in ((True, succ[0]), (False, succ[1])):
+                    if s_ < 0:
+                        continue
+                    pk2, nk2, unk2 = pk, nk, unk
+                    if cl is not None:
+                        if cl[0] == "prev":
+                            v = cl[1] if pol else not cl[1]
+                            if pk is not None and pk != v:
+                                continue      # infeasible: same test, other outcome
+                            pk2 = v
+                        elif cl[0] == "next":
+                            v = cl[1] if pol else not cl[1]
+                            if nk is not None and nk != v:
+                                continue
+                            nk2 = v
+                        else:
+                            unk2 = True
+                    stack.append((s_, wh, wt, rl, pk2, nk2, unk2, trail + ((fn.text(fn.strip(blk["cond"], casts=True)), pol),)))
+            else:
+                for s_ in succ:
+                    if s_ >= 0:
+                        stack.append((s_, wh, wt, rl, pk, nk, unk, trail))
+        if not results:
+            ctx.ob(rule, "removeOne: paths to the release", None, fn.where, "no path reaches the release call")
+            continue
+        verdict = {"head_": True, "tail_": True, "predecessor": True}
+        why = {}
+        for (wh, wt, rl, pk, nk, unk, trail, e) in results:
+            tr = " && ".join(("%s" if pol else "!(%s)") % t for t, pol in trail) or "always"
+            if not (wh or pk is True):
+                verdict["head_"] = None if unk and verdict["head_"] else False if not unk else verdict["head_"]
+                why.setdefault("head_", "on the path [%s] head_ is not re-seated although the slot may be the first one" % tr)
+            if not (wt or nk is False):
+                verdict["tail_"] = None if unk and verdict["tail_"] else False if not unk else verdict["tail_"]
+                why.setdefault("tail_", "on the path [%s] tail_ is not re-seated although the slot may be the last one: tail_ keeps "
+                                        "designating the released slot, and the next insertion links the new element behind it" % tr)
+            if not (rl or pk is False):
+                verdict["predecessor"] = None if unk and verdict["predecessor"] else False if not unk else verdict["predecessor"]
+                why.setdefault("predecessor", "on the path [%s] the predecessor is not re-linked to the successor" % tr)
+        for what in ("head_", "tail_", "predecessor"):
+            ctx.ob(rule, "removeOne: %s no longer designates the released slot" % what, verdict[what], fn.loc(results[0][7]),
+                   why.get(what, "%d paths to the release, each re-seats it or excludes the case by its branch conditions" % len(results)))
+    ctx.floor(rule, "CollectionData::removeOne", n, 1)
+    ctx.doc(rule, "removeOne leaves no head_/tail_/next link to the slot it releases (path-wise, with the prev/next tests as path conditions)")
